@@ -21,6 +21,10 @@ REQUIRED_THEOREMS = [
     "C02.stored_under_own_id",
     "C02.fallback_collision_counterexample",
     "C02.shared_function_id_stale_reference_counterexample",
+    # functions that mutate their arguments in place
+    "C02.effect_on_arguments_irrelevant",
+    "C02.cached_call_correct_mutating_partial",
+    "C02.key_after_call_wrong_value_counterexample",
 ]
 TRUSTED_EXTRA = [
     "modelled, not verified: md5 (the digest is the parameter H; the theorems assume no collision among the finitely many keys of the "
